@@ -147,6 +147,22 @@ def build():
         U.fragment(MG_C, 'MoveGen_pseudoLegalCaptures_tiled' + sfx, r'const U64 occupied = pos\.occupiedBB\(\);', C_SL, params=[('Position', 'pos', True), ('MoveList', 'moveList', True)],
                    cls='MoveGen', is_static=True, tsubst={'wtm': val},
                    epilogue='\n' + ''.join('    %s(pos, moveList, occupied);\n' % fr.cname for fr in frs), **PC_KW)
+    # MoveGen::removeIllegal: the per-move verdict of both loops (in check / not in check).  The else-branch plays the move
+    # (makeMove; setWhiteMove; inCheck; setWhiteMove; unMakeMove - text pinned below) and is replaced by its specification
+    # `legal = ghost_played_safe`; what is verified is the king-ray SHORTCUT that avoids playing the move.
+    ri = find_function(U.src(MG_C), 'MoveGen::removeIllegal', nparams=2)
+    PLAY = r'pos\.makeMove\(m, ui\);\s*pos\.setWhiteMove\(!pos\.isWhiteMove\(\)\);\s*legal = !inCheck\(pos\);\s*pos\.setWhiteMove\(!pos\.isWhiteMove\(\)\);\s*pos\.unMakeMove\(m, ui\);'
+    if len(re.findall(PLAY, ri.body)) != 2 or len(re.findall(r'bool legal;', ri.body)) != 2 or len(re.findall(r'if \(legal\)\s*moveList\[length\+\+\] = m;', ri.body)) != 2:
+        raise ExtractError('pin changed: play-the-move branches of MoveGen::removeIllegal')
+    U.raw('_Bool ghost_played_safe;   /* result of playing the move and testing the own king (else-branch of removeIllegal) */\n')
+    U.passthrough('ghost_played_safe')
+    RIP = [('Position', 'pos', True), ('Move', 'm', True), ('Square', 'kSq', False), ('U64', 'kingAtks', False), ('Square', 'epSquare', False)]
+    if not re.search(r'if \(isInCheck\) \{\s*kingAtks \|= pos\.pieceTypeBB\(pos\.isWhiteMove\(\) \? Piece::BKNIGHT : Piece::WKNIGHT\);\s*for \(int mi = 0; mi < moveList\.size; mi\+\+\) \{\s*const Move& m = moveList\[mi\];\s*bool legal;', ri.body):
+        raise ExtractError('pin changed: structure of MoveGen::removeIllegal (first verdict is the in-check loop)')
+    U.fragment(MG_C, 'MoveGen_removeIllegal_verdict_ic', r'bool legal;', r'if \(legal\)\s*moveList\[length\+\+\] = m;', start_nth=(0, 2), end_first=True,
+               params=RIP, ret='bool', cls='MoveGen', is_static=True, rules=[(PLAY, 'legal = ghost_played_safe;', 1)], epilogue='\n    return legal;\n', within='MoveGen::removeIllegal', within_kw=dict(nparams=2))
+    U.fragment(MG_C, 'MoveGen_removeIllegal_verdict_nic', r'bool legal;', r'if \(legal\)\s*moveList\[length\+\+\] = m;', start_nth=(1, 2), end_first=True,
+               params=RIP, ret='bool', cls='MoveGen', is_static=True, rules=[(PLAY, 'legal = ghost_played_safe;', 1)], epilogue='\n    return legal;\n', within='MoveGen::removeIllegal', within_kw=dict(nparams=2))
     for gen in ('pseudoLegalMoves', 'checkEvasions', 'pseudoLegalCaptures', 'pseudoLegalCapturesAndChecks'):
         P(MG_C, 'MoveGen::' + gen, nparams=2, template=True, tsubst={'wtm': 'true'}, suffix='_w', as_static=True)
         P(MG_C, 'MoveGen::' + gen, nparams=2, template=True, tsubst={'wtm': 'false'}, suffix='_b', as_static=True)
@@ -239,6 +255,11 @@ struct Position ghost_pos1;
 #define ISLEGAL_CASE(p, m, ic) (((ic) != 0) == CASE_IC && (((p)->squares[(m)->from_] - 1) % 6) == CASE_PT)
 #else
 #define ISLEGAL_CASE(p, m, ic) 1
+#endif
+#ifdef CASE_RI
+#define RI_CASE(p, m) ((((p)->squares[(m)->from_] - 1) % 6) == CASE_RI)
+#else
+#define RI_CASE(p, m) 1
 #endif
 #ifdef CASE_GC
 #define GC_CASE(p, m) ((((p)->squares[(m)->from_] - 1) % 6) == CASE_GC)
@@ -566,6 +587,19 @@ for _sfx, _me in (('_w', 1), ('_b', 0)):
         'requires': _EVPRE + ['pos->whiteMove == %d' % _me, '__CPROVER_is_fresh(moveList, sizeof(*moveList))', 'GM_OK', '0 <= ghost_hits && ghost_hits < 900'] + _g,
         'assigns': ['moveList->size', 'ghost_hits'], 'ensures': _cpost('GM_FROM_OWN(pos)')}
 
+_RIPRE = [_POS, '__CPROVER_is_fresh(m, sizeof(*m))', 'wf_bb(pos)', 'FLAGS_OK(pos)', 'men_ok(pos)', 'wf_rights(pos)', '!spec_in_check_b(pos->squares, !pos->whiteMove)',
+          'spec_pseudo_legal(pos, m)', 'kSq == spec_king_sq(pos->squares, pos->whiteMove)', 'epSquare == pos->epSquare',
+          'ghost_played_safe == spec_leaves_king_safe(pos, m)', 'RI_CASE(pos, m)']
+_RAYS = '(spec_rook_rays(kSq, spec_occ(pos->squares)) | spec_bishop_rays(kSq, spec_occ(pos->squares)))'
+CONTRACTS['MoveGen_removeIllegal_verdict_ic'] = {
+    # in check: kingAtks = king rays + all opponent knights; a non-king, non-en-passant move to a square outside them can neither capture the checker nor interpose
+    'requires': _RIPRE + ['spec_in_check(pos)', 'kingAtks == (%s | (pos->whiteMove ? pos->pieceTypeBB_[Piece_BKNIGHT] : pos->pieceTypeBB_[Piece_WKNIGHT]))' % _RAYS],
+    'assigns': [], 'ensures': ['__CPROVER_return_value == spec_leaves_king_safe(pos, m)']}
+CONTRACTS['MoveGen_removeIllegal_verdict_nic'] = {
+    # not in check: a non-king, non-en-passant move of a piece that does not stand on a king ray cannot expose the king
+    'requires': _RIPRE + ['!spec_in_check(pos)', 'kingAtks == %s' % _RAYS],
+    'assigns': [], 'ensures': ['__CPROVER_return_value == spec_leaves_king_safe(pos, m)']}
+
 HARNESS = posunit.HARNESS.split('void h_setPiece')[0] + r'''
 void h_sqAttacked_w(void) { struct Position* p; int sq; U64 occ; havoc_tables(); MoveGen_sqAttacked_w(p, sq, occ); CANARY_POINT; }
 void h_sqAttacked_b(void) { struct Position* p; int sq; U64 occ; havoc_tables(); MoveGen_sqAttacked_b(p, sq, occ); CANARY_POINT; }
@@ -605,6 +639,8 @@ void h_pc_kingpawns_w(void) { struct Position* p; struct MoveList* ml; U64 occ; 
 void h_pc_kingpawns_b(void) { struct Position* p; struct MoveList* ml; U64 occ; havoc_tables(); havoc_gm(); MoveGen_pseudoLegalCaptures_kingpawns_b(p, ml, occ); CANARY_POINT; }
 void h_pc_tiled_w(void) { struct Position* p; struct MoveList* ml; havoc_tables(); havoc_gm(); MoveGen_pseudoLegalCaptures_tiled_w(p, ml); CANARY_POINT; }
 void h_pc_tiled_b(void) { struct Position* p; struct MoveList* ml; havoc_tables(); havoc_gm(); MoveGen_pseudoLegalCaptures_tiled_b(p, ml); CANARY_POINT; }
+void h_ri_ic(void) { struct Position* p; struct Move* m; int k, e; U64 a; havoc_tables(); ghost_played_safe = (nondet_int() != 0); MoveGen_removeIllegal_verdict_ic(p, m, k, a, e); CANARY_POINT; }
+void h_ri_nic(void) { struct Position* p; struct Move* m; int k, e; U64 a; havoc_tables(); ghost_played_safe = (nondet_int() != 0); MoveGen_removeIllegal_verdict_nic(p, m, k, a, e); CANARY_POINT; }
 void h_occupiedBB(void) { struct Position* p; havoc_tables(); Position_occupiedBB(p); CANARY_POINT; }
 void h_evasion_head_w(void) { struct Position* p; U64 occ; havoc_tables(); MoveGen_checkEvasions_head_w(p, occ); CANARY_POINT; }
 void h_evasion_head_b(void) { struct Position* p; U64 occ; havoc_tables(); MoveGen_checkEvasions_head_b(p, occ); CANARY_POINT; }
@@ -655,6 +691,9 @@ for _sfx in ('_w', '_b'):
     GROUPS.append(Group('pseudoLegalCaptures_tiled' + _sfx, 'h_pc_tiled' + _sfx, enforce=_pf + 'tiled' + _sfx, defines=('COMPOSE_UF=1',),
                         replace=('Position_occupiedBB', _pf + 'pieces' + _sfx, _pf + 'kingpawns' + _sfx), min_props=5, timeout=3000,
                         note='composition of the two fragment contracts; spec functions uninterpreted (COMPOSE_UF)'))
+for _n in ('ic', 'nic'):
+    GROUPS.append(Group('removeIllegal_verdict_' + _n, 'h_ri_' + _n, enforce='MoveGen_removeIllegal_verdict_' + _n, min_props=5, timeout=3000,
+                        cases=('case', [('CASE_RI=%d' % pt,) for pt in range(6)])))
 GROUPS.append(Group('lemma_pl_own', 'h_lemma_pl_own', min_props=1))
 GROUPS.append(Group('occupiedBB', 'h_occupiedBB', enforce='Position_occupiedBB', min_props=2))
 for _sfx in ('_w', '_b'):
